@@ -1,6 +1,8 @@
 package main
 
 import (
+	"io"
+	"errors"
 	"sync/atomic"
 	"bufio"
 	"bytes"
@@ -36,8 +38,22 @@ func cmdJSON(o *Out, line string, f []string) {
 	var parsed []string // what each parseable line parses to (hex), in order (long lines included)
 	hasBad, hasLong := false, false
 	noEOL := false
+	var readErr error // the input source fails with this error after the text collected so far
+tokens:
 	for _, tok := range sec[1] {
 		switch {
+		case strings.HasPrefix(tok, "RDERR"):
+			// the source cannot be read in full: it fails here (at a line boundary, or - kinds 2, 5 - in the middle of a line)
+			// with an error that is not io.EOF; whatever follows is never delivered
+			kinds := []error{io.ErrUnexpectedEOF, errors.New("read: connection reset by peer"), io.ErrUnexpectedEOF, io.ErrClosedPipe, io.ErrNoProgress,
+				errors.New("input/output error")}
+			k := int(atoi64(tok[5:])) % len(kinds)
+			if k == 2 || k == 5 {
+				text.WriteString("{\"a\": 1, \"b")
+			}
+			readErr = kinds[k]
+			hasBad = true
+			break tokens
 		case tok == "NOEOL": // the text does not end with a newline
 			noEOL = true
 		case strings.HasPrefix(tok, "BAD"):
@@ -97,7 +113,7 @@ func cmdJSON(o *Out, line string, f []string) {
 	}
 	ctx, cancel := context.WithCancel(context.Background())
 	defer cancel()
-	opts := metrics.CollectJSONOptions{InputSource: &slowReader{r: &text, every: flushMs}, SampleCount: n, FlushInterval: flush}
+	opts := metrics.CollectJSONOptions{InputSource: &slowReader{r: &text, every: flushMs, fail: readErr}, SampleCount: n, FlushInterval: flush}
 	files := len(sec[0]) > 2 && sec[0][2] == "files"
 	var dir string
 	if files {
@@ -109,7 +125,7 @@ func cmdJSON(o *Out, line string, f []string) {
 		}
 		defer os.RemoveAll(dir)
 		opts.OutputFilePrefix = filepath.Join(dir, "out")
-		opts.InputSource = &slowReader{r: &text, every: flushMs, lineWise: true}
+		opts.InputSource = &slowReader{r: &text, every: flushMs, lineWise: true, fail: readErr}
 	}
 	out, err := metrics.CollectJSONStream(ctx, opts)
 	if files && err == nil {
@@ -149,7 +165,7 @@ func cmdJSON(o *Out, line string, f []string) {
 		if derr != nil {
 			o.violation(line, "output of CollectJSONStream does not decode", derr.Error())
 		} else if hasBad {
-			o.violation(line, "a malformed line was not reported: nil error",
+			o.violation(line, "a malformed line, or an input that could not be read in full, was not reported: nil error",
 				map[string]int{"parseable_lines": len(parsed), "decoded": len(docs)})
 		} else if strings.Join(docs, " ") != strings.Join(want, " ") {
 			// a line over 64 KiB may be refused with an error, or read in full; never dropped or cut silently
@@ -201,9 +217,13 @@ type slowReader struct {
 	r        *bytes.Buffer
 	every    int
 	lineWise bool
+	fail     error // reported instead of io.EOF when the text is exhausted
 }
 
 func (s *slowReader) Read(p []byte) (int, error) {
+	if s.fail != nil && s.r.Len() == 0 {
+		return 0, s.fail
+	}
 	if s.lineWise {
 		time.Sleep(time.Duration(s.every) * time.Millisecond * 2 / 3)
 		b := s.r.Bytes()
@@ -277,10 +297,13 @@ func streamJSON(o *Out, rng *rand.Rand, thorough bool, _ []string) {
 			}
 			tok := hx(mkDoc(schema, int64(k)))
 			if k == bad {
-				if rng.Intn(2) == 0 {
+				switch rng.Intn(3) {
+				case 0:
 					tok = fmt.Sprintf("BAD%d", rng.Intn(15))
-				} else {
+				case 1:
 					tok = "LONG" + tok
+				default:
+					tok = fmt.Sprintf("RDERR%d", rng.Intn(6)) // the source fails here
 				}
 			}
 			toks = append(toks, tok)
@@ -305,6 +328,12 @@ func streamJSON(o *Out, rng *rand.Rand, thorough bool, _ []string) {
 	for k := 0; k < 15; k++ {
 		run(o, fmt.Sprintf("json 3 0 | %s %s BAD%d %s", hx(mkDoc(0, 1)), hx(mkDoc(0, 2)), k, hx(mkDoc(0, 3))))
 		run(o, fmt.Sprintf("json 3 0 | %s BAD%d NOEOL", hx(mkDoc(0, 1)), k))
+	}
+	// every kind of read failure: first thing, after complete lines, in files mode
+	for k := 0; k < 6; k++ {
+		run(o, fmt.Sprintf("json 3 0 | RDERR%d", k))
+		run(o, fmt.Sprintf("json 3 0 | %s %s RDERR%d", hx(mkDoc(0, 1)), hx(mkDoc(0, 2)), k))
+		run(o, fmt.Sprintf("json 2 2 files | %s %s %s RDERR%d", hx(mkDoc(0, 1)), hx(mkDoc(0, 2)), hx(mkDoc(0, 3)), k))
 	}
 	run(o, fmt.Sprintf("json 3 0 | %s LONG%s NOEOL", hx(mkDoc(0, 1)), hx(mkDoc(0, 2))))
 	run(o, fmt.Sprintf("json 2 0 | %s NOEOL", hx(mkDoc(1, 1))))
